@@ -92,9 +92,13 @@ def plan(tier, seed):
         out += L.split_plan("unordered:U5chainx1x{a,c,d,bd,abcd}/child-order", [(sh, None) for sh in chain3],
                             [("a",), ("c",), ("d",), ("b", "d"), ("a", "b", "c", "d")], 60,
                             {"family": "unordered", "costs": v3[:1], "names": ["swap_object", "repeat_fresh"], "algos": ["superdtl"]})
+        # 3 objects on 3 species leaves, 2 families, unordered: child-order transformations only (a transfer whose conserved
+        # copy is the first child and sits strictly below the donor's species)
+        out += L.split_plan("unordered:U3x3x2/child-order", spaces.shape_pairs(3, 3, min_obj=3, min_sp=3), u2, 60,
+                            {"family": "unordered", "costs": v3[:1], "names": swaps})
         # the input solved after a pass through its dictionary form, under vectors with a unit cost of zero and an infinite one
         zero = [core[3], core[4], core[5], core[6], core[7]]
-        dform = {"costs": zero, "names": ["through_dict_form"]}
+        dform = {"costs": zero, "names": ["through_dict_form"]}      # (prefix match: also the casepairs variant)
         out += L.split_plan("ordered:O3x2x2/dict-form", spaces.shape_pairs(3, 2, min_obj=2), o2, 60, dict(dform, family="ordered"))
         out += L.split_plan("unordered:U3x2x2/dict-form", spaces.shape_pairs(3, 2, min_obj=2), u2, 60, dict(dform, family="unordered"))
         for osh, ssh in spaces.shape_pairs(3, 3, min_obj=2):
@@ -122,7 +126,7 @@ def plan(tier, seed):
                         [(o, s_) for o in spaces.chain_shapes(4) for s_ in spaces.binary_shapes(3)], u2, 15,
                         {"family": "unordered", "costs": v5[:1], "kinds": ["same", "twice", "after", "inplace"]})
     # the quick slices that the larger ones above do not subsume
-    keep = ("ordered:O4combx3combx{a,c,bc,abc}/raise-floss", "ordered:O3x3x2/uneven-losses", "unordered:U5chainx1x{a,c,d,bd,abcd}/child-order", "unordered:U4chainx1x3/costs", "unordered:U3x4x1", "ordered:O3x4x1", "ordered:O4x2x2/child-order",
+    keep = ("unordered:U3x3x2/child-order", "ordered:O4combx3combx{a,c,bc,abc}/raise-floss", "ordered:O3x3x2/uneven-losses", "unordered:U5chainx1x{a,c,d,bd,abcd}/child-order", "unordered:U4chainx1x3/costs", "unordered:U3x4x1", "ordered:O3x4x1", "ordered:O4x2x2/child-order",
             "unordered:U4x2x2/child-order", "ordered:O3x2x2/dict-form", "unordered:U3x2x2/dict-form", "plain:P3x3/dict-form")
     out = [sh for sh in plan("quick", seed) if sh["slice"] in keep] + out      # cheap ones first
     out.insert(0, {"slice": "determinism", "family": "det", "tier": "thorough"})
@@ -170,6 +174,8 @@ NAMINGS = {
     "autolike": lambda t, p: {v: (f"{p.upper()}{(v + 1) % t.n}" if t.children[v] else f"{p}{v}") for v in range(t.n)},
     # ancestors without a name (legal for library callers; the labelled solvers name them in place on first use)
     "unnamed": lambda t, p: {v: ("" if t.children[v] else f"{p}{v}") for v in range(t.n)},
+    # names that differ only by letter case inside one tree (x / X, y / Y, ...)
+    "casepairs": lambda t, p: {v: (p + "xyzuvwrst"[v // 2]).upper() if v % 2 else (p + "xyzuvwrst"[v // 2]) for v in range(t.n)},
 }
 FAMILY_MAPS = {
     "id": {"a": "a", "b": "b", "c": "c", "d": "d"},
@@ -343,6 +349,7 @@ def transformations(onest, snest, costs, family):
     out.append(("outgroup_right", "outgroup", {"snest": (snest, "X")}))
     out.append(("outgroup_left", "outgroup", {"snest": ("X", snest)}))
     out.append(("through_dict_form", "same", {"via_dict": True}))
+    out.append(("through_dict_form_casepairs", "same", {"via_dict": True, "naming": "casepairs"}))
     out.append(("after_other_algorithms", "same", {"after_algos": True}))
     if tuple(costs) == (0, 1, 1, 1, 1):
         out.append(("default_costs_after_sibling_edit", "same", {"default_history": True}))
